@@ -137,6 +137,10 @@ func runR01_5(c *Ctx, r *R) {
 						}
 						return // len, cap, copy, min, max: no reference flows to the result / destination
 					}
+					// another Clone* method of the package is judged on its own: what it returns is a clone
+					if cal := x.Call.StaticCallee(); cal != nil && cal.Pkg == f.Pkg && strings.HasPrefix(cal.Name(), "Clone") {
+						return
+					}
 					for _, a := range x.Call.Args {
 						if isT(a) && carriesRef(a.Type(), 0) {
 							mark(x)
